@@ -1,4 +1,6 @@
 import Gallia.Proofs.Lemmas.Lines
+import Gallia.Proofs.Lemmas.LinesExec
+import Gallia.Gen.C19Lines
 /-
   C19 — Line-based transports deliver every message intact, in order, one per read.
   Property theorems only; helper lemmas are in `Proofs/Lemmas/Lines.lean`.
@@ -130,5 +132,311 @@ theorem serve_replies {σ} (h : σ → Bytes → σ × Option Bytes) (s : σ) (m
 /-- non-vacuity: a concrete burst with a partial tail -/
 example : readLine (enc [0x3e, 0x00] ++ enc [0x10, 0x01] ++ [0x33]) false = (.msg [0x3e, 0x00], enc [0x10, 0x01] ++ [0x33]) := by
   decide
+
+/-! ### the client as a whole execution (`Model/LinesExec.lean`: `cstep`, `crun`) -/
+
+/-- **client_trace_spec.**  For EVERY operation sequence (feeds cut anywhere, end-of-stream anywhere, reads, writes,
+    requests, close in any order): the result of the read (or request) at any position is determined by the message
+    sequence specification alone - it is the decoding of line number `k` of the stream delivered so far, where `k` is
+    the number of lines the earlier reads handed out (so: in order, each once); when the delivered stream holds no
+    further complete line it is `eos` if the stream has ended and `pending` (the read blocks / times out) otherwise. -/
+theorem client_trace_spec (pre post : List Op) (op : Op) (hop : op = .read ∨ ∃ m, op = .request m) :
+    (crun {} (pre ++ op :: post)).2[pre.length]? =
+      some (.res (specRead (fedBytes false pre) (lineResults (crun {} pre).2).length (eofSeen false pre))) := by
+  obtain ⟨extra, hR, hl, he⟩ := rel_run pre rel_init
+  have h1 := (rel_read hR).1
+  have hlen := crun_length ({} : Client) pre
+  simp only [List.nil_append] at h1 hl
+  rw [crun_append]
+  simp only [crun]
+  rw [List.getElem?_append_right (by omega), hlen, Nat.sub_self, List.getElem?_cons_zero, hl, List.length_map, ← he, ← h1]
+  rcases hop with rfl | ⟨m, rfl⟩ <;> simp [cstep]
+
+/-- `pending` exactly when no complete line is left and the stream is still open -/
+theorem read_pending_iff (S : Bytes) (k : Nat) (ended : Bool) :
+    specRead S k ended = .pending ↔ (linesOf S).length ≤ k ∧ ended = false := by
+  unfold specRead
+  cases h : (linesOf S)[k]? with
+  | some l =>
+    have := (List.getElem?_eq_some_iff.mp h).1
+    simp [(decodeLine_ne_pending l).1]; omega
+  | none => cases ended <;> simp [List.getElem?_eq_none_iff.mp h]
+
+/-- `eos` exactly when the stream has ended with no complete line left -/
+theorem read_eos_iff (S : Bytes) (k : Nat) (ended : Bool) :
+    specRead S k ended = .eos ↔ (linesOf S).length ≤ k ∧ ended = true := by
+  unfold specRead
+  cases h : (linesOf S)[k]? with
+  | some l =>
+    have := (List.getElem?_eq_some_iff.mp h).1
+    simp [(decodeLine_ne_pending l).2]; omega
+  | none => cases ended <;> simp [List.getElem?_eq_none_iff.mp h]
+
+/-- in order, each once: over any operation sequence (from any client whose reader buffer is empty) the lines handed
+    out by the reads are exactly the first `n` lines of the stream delivered so far, `n` being their number -/
+theorem client_reads_in_order_from (c : Client) (hb : c.buf = []) (ops : List Op) :
+    lineResults (crun c ops).2 =
+      ((linesOf (fedBytes c.eof ops)).take (lineResults (crun c ops).2).length).map decodeLine := by
+  obtain ⟨extra, hR, hl, _⟩ := rel_run ops (rel_fresh c hb)
+  have := rel_lines hR
+  simp only [List.nil_append] at this hl
+  rw [hl, this]
+  simp
+
+theorem client_reads_in_order (ops : List Op) :
+    lineResults (crun {} ops).2 =
+      ((linesOf (fedBytes false ops)).take (lineResults (crun {} ops).2).length).map decodeLine :=
+  client_reads_in_order_from {} rfl ops
+
+/-- ... and nothing is lost: once a read finds nothing (it blocks, or reports end-of-stream), every complete line of
+    the delivered stream has been handed out -/
+theorem client_drained (ops : List Op)
+    (h : (cstep (crun {} ops).1 .read).2 = .res .pending ∨ (cstep (crun {} ops).1 .read).2 = .res .eos) :
+    lineResults (crun {} ops).2 = (linesOf (fedBytes false ops)).map decodeLine := by
+  obtain ⟨extra, hR, hl, _⟩ := rel_run ops rel_init
+  have hlines := rel_lines hR
+  have hr := (rel_read hR).1
+  simp only [List.nil_append] at hlines hl hr
+  have hlen : (linesOf (fedBytes false ops)).length ≤ extra.length := by
+    simp only [cstep] at h
+    rcases h with h | h
+    · injection h with h; rw [hr] at h; exact ((read_pending_iff _ _ _).mp h).1
+    · injection h with h; rw [hr] at h; exact ((read_eos_iff _ _ _).mp h).1
+  have : linesOf (crun {} ops).1.buf = [] := by
+    rw [hlines] at hlen
+    simp at hlen
+    exact List.eq_nil_of_length_eq_zero (by omega)
+  rw [hl, hlines, this]; simp
+
+/-- messages in, messages out: when the delivered bytes are the encodings of `ms` (cut and interleaved with reads,
+    writes and timeouts in any way) plus an incomplete tail, the reads hand out a prefix of `ms`, intact and in order -/
+theorem client_delivers_messages_from (c : Client) (hb : c.buf = []) (ops : List Op) (ms : List Bytes) (tail : Bytes)
+    (ht : NL ∉ tail) (hfed : fedBytes c.eof ops = (ms.map enc).flatten ++ tail) :
+    lineResults (crun c ops).2 = (ms.take (lineResults (crun c ops).2).length).map ReadRes.msg := by
+  have h := client_reads_in_order_from c hb ops
+  rw [hfed, linesOf, frames_exact ms tail ht] at h
+  refine h.trans ?_
+  simp only [← List.map_take, List.map_map]
+  apply List.map_congr_left
+  intro m _
+  simp [decodeLine, strip_hexB, unhexB_hexB_append]
+
+theorem client_delivers_messages (ops : List Op) (ms : List Bytes) (tail : Bytes) (ht : NL ∉ tail)
+    (hfed : fedBytes false ops = (ms.map enc).flatten ++ tail) :
+    lineResults (crun {} ops).2 = (ms.take (lineResults (crun {} ops).2).length).map ReadRes.msg :=
+  client_delivers_messages_from {} rfl ops ms tail ht hfed
+
+/-- a timed-out read consumes nothing - over sequences: a read that blocks, placed anywhere in any execution, leaves
+    the final state and every other observation exactly as if it had not been issued -/
+theorem timed_out_read_consumes_nothing (c : Client) (pre post : List Op)
+    (h : (cstep (crun c pre).1 .read).2 = .res .pending) :
+    crun c (pre ++ .read :: post) =
+      ((crun c (pre ++ post)).1, (crun c pre).2 ++ .res .pending :: (crun (crun c pre).1 post).2) := by
+  rw [crun_append, crun_append]
+  simp only [crun, h, cstep_read_pending h]
+
+/-! ### write side -/
+
+/-- `write(msg)` hands exactly `hex(msg) ++ "\n"` to the stream, for every message (no length limit), appends it to
+    what was written before, touches nothing else and returns `len(msg)`; a burst of writes puts the encodings on the
+    wire in order -/
+theorem write_emits_exactly (c : Client) (ms : List Bytes) :
+    (crun c (ms.map .write)).1 = { c with out := c.out ++ (ms.map (fun m => hexB m ++ [NL])).flatten } ∧
+    (crun c (ms.map .write)).2 = ms.map (fun m => .wrote m.length) := by
+  have e : (ms.map enc) = ms.map (fun m => hexB m ++ [NL]) := rfl
+  constructor <;> simp [crun_writes, e]
+
+/-- the wire form of a message of `n` bytes is `2 n + 1` bytes long, whatever `n` is -/
+theorem enc_length (m : Bytes) : (enc m).length = 2 * m.length + 1 := by
+  have : ∀ m : Bytes, (hexB m).length = 2 * m.length := by
+    intro m; induction m with
+    | nil => rfl
+    | cons b t ih => simp [hexB, ih]; omega
+  simp [enc, this]
+
+/-- `request()` is `write` followed by `read` (`request_unsafe`; the mutex of `request()` makes the pair atomic
+    among the users of one transport - C05): in any execution a request can be replaced by the two operations -/
+theorem request_is_write_then_read (c : Client) (pre post : List Op) (m : Bytes) :
+    (crun c (pre ++ .request m :: post)).1 = (crun c (pre ++ .write m :: .read :: post)).1 ∧
+    (crun c (pre ++ .request m :: post)).2 =
+      (crun c pre).2 ++ (crun c (pre ++ .write m :: .read :: post)).2.drop (pre.length + 1) := by
+  rw [crun_append, crun_append]
+  simp only [crun, cstep]
+  refine ⟨trivial, ?_⟩
+  rw [List.drop_append]
+  simp [crun_length]
+
+/-- non-vacuity of the whole-execution theorems: a script with a split hex digit pair, a timeout inside the line,
+    two lines in one chunk and the end of the stream inside a line -/
+example : (crun {} [.feed [0x33], .read, .feed [0x65, 0x0A, 0x31, 0x30, 0x0A, 0x32], .read, .read, .read, .eof, .read]).2 =
+    [.ok, .res .pending, .ok, .res (.msg [0x3e]), .res (.msg [0x10]), .res .pending, .ok, .res .eos] := by decide
+
+/-! ### obligations against the tables regenerated from the code (`gen/c19_lines.py` -> `Gen/C19Lines.lean`) -/
+
+/-- the code facts the model rests on, as read off the AST on this run: `write` hands `hexlify(data) + b"\n"` to the
+    stream, returns `len(data)` and has no size guard; `read` is `readline` under `wait_for`, the newline test, `decode()`,
+    `strip()`, `unhexlify`; `request_unsafe` is `write` then `read` and `request` runs it under the transport mutex;
+    neither the clients' connect calls nor the servers' `run()` pass a `limit` (or any keyword) to asyncio; the server
+    loop body is readline / newline test -> break / decode("ascii") / strip() / unhexlify / handle_request / reply only
+    `if ... is not None` / hexlify + newline / drain, any `Exception` -> break; the unix server only overrides `run` -/
+theorem code_facts_agree :
+    Gen.C19Lines.writeGuards = [] ∧
+    Gen.C19Lines.writeArg = "binascii.hexlify(data) + b'\\n'" ∧
+    Gen.C19Lines.writeReturns = ["len(data)"] ∧
+    Gen.C19Lines.readCalls = ["readline()", "wait_for(self.get_reader().readline(), timeout)", "endswith(b'\\n')",
+      "decode()", "strip()", "unhexlify(d)"] ∧
+    Gen.C19Lines.requestUnsafeCalls = ["write", "read"] ∧ Gen.C19Lines.requestLocked = true ∧
+    Gen.C19Lines.connectTcpKw = ([], 2) ∧ Gen.C19Lines.connectUnixKw = ([], 1) ∧
+    Gen.C19Lines.runTcpKw = ([], 3) ∧ Gen.C19Lines.runUnixKw = ([], 2) ∧
+    Gen.C19Lines.loopCalls = ["readline", "endswith", "decode", "strip", "unhexlify", "handle_request", "append",
+      "hexlify", "write", "drain"] ∧
+    Gen.C19Lines.loopDecodeArgs = ["'ascii'"] ∧ Gen.C19Lines.loopStripArgs = [] ∧
+    Gen.C19Lines.loopExcepts = [("Exception", "Break")] ∧
+    Gen.C19Lines.loopIfs = [("not line.endswith(b'\\n')", "Break"), ("uds_response_raw is not None", "Expr")] ∧
+    Gen.C19Lines.loopWriteArgs = ["hexlify(uds_response_raw) + b'\\n'"] ∧
+    Gen.C19Lines.unixServerMethods = ["run"] ∧ Gen.C19Lines.unixServerBases = ["TCPUDSServerTransport"] := by
+  decide
+
+/-- the only length limit on either side is the StreamReader's (asyncio default, no `limit` passed - see above): every
+    line of a message of the property's range (1..4095 bytes), and of any message up to 32767 bytes, fits -/
+theorem limits_cover_property_range (m : Bytes) (h : m.length ≤ 32767) :
+    (enc m).length ≤ Gen.C19Lines.defaultLimit := by
+  rw [enc_length]
+  have : Gen.C19Lines.defaultLimit = 65536 := by decide
+  omega
+
+/-- tolerant decoding, as `strip()` + `unhexlify` do it: hex digits in either case (any mix), surrounded by any ASCII
+    whitespace (blanks, tabs, the `\r` of a CRLF line ending) decode to the same message as the canonical spelling -/
+theorem decode_tolerant (m : Bytes) (pre ds post : Bytes) (hds : ds.map lowerB = hexB m)
+    (hpre : ∀ x ∈ pre, isWs x = true) (hpost : ∀ x ∈ post, isWs x = true) :
+    decodeLine (pre ++ ds ++ post) = .msg m := by
+  obtain ⟨h1, h2⟩ := unhexB_anycase m ds hds
+  unfold decodeLine
+  rw [strip_padded pre ds post hpre hpost h2, h1]
+
+example : decodeLine ([0x20, 0x09] ++ [0x33, 0x45, 0x66, 0x46] ++ [0x20, 0x0D]) = .msg [0x3e, 0xff] :=
+  decode_tolerant [0x3e, 0xff] _ _ _ (by decide) (by decide) (by decide)
+
+/-! ### the server loop as a whole execution (`srvLoop`, `srvFeed`, `srvEof`) -/
+
+/-- request lines `ls` (any spelling that decodes: lower / upper case, CRLF, surrounding blanks) carrying the requests
+    `ms`, none of which makes the handler raise, followed by an incomplete tail: the loop hands the requests over in
+    order, writes ONE reply line per answered request, NOTHING for an unanswered one, in request order; it then waits
+    with the tail buffered - or, at end-of-stream, ends and drops the tail without handling it -/
+theorem server_replies_in_order {σ : Type} (h : σ → Bytes → σ × HRes) (st : σ) (ls ms : List Bytes) (tail : Bytes) (eof : Bool)
+    (hl : ∀ l ∈ ls, NL ∉ l) (hd : ls.map decodeLine = ms.map ReadRes.msg)
+    (hr : ∀ r ∈ (answersX h st ms).2, r ≠ .raised) (ht : NL ∉ tail) :
+    srvLoop h st (joinLines ls ++ tail) eof =
+      ((answersX h st ms).1, ((repliesOf (answersX h st ms).2).map enc).flatten,
+       if eof then (if tail = [] then .eofClean else .eofTail) else .waiting, if eof then [] else tail) := by
+  rw [srvLoop_lines h st ls ms tail eof hl hd hr, srvLoop_none h _ eof (cutLine_none_iff.mpr ht), flatten_replyBytes]
+  cases eof <;> simp
+
+/-- the same for requests in canonical spelling (what the client's `write` produces) -/
+theorem server_replies_to_client_writes {σ : Type} (h : σ → Bytes → σ × HRes) (st : σ) (ms : List Bytes) (tail : Bytes)
+    (hr : ∀ r ∈ (answersX h st ms).2, r ≠ .raised) (ht : NL ∉ tail) :
+    srvLoop h st ((ms.map enc).flatten ++ tail) false =
+      ((answersX h st ms).1, ((repliesOf (answersX h st ms).2).map enc).flatten, .waiting, tail) := by
+  have := server_replies_in_order h st (ms.map hexB) ms tail false
+    (by intro l hl; simp only [List.mem_map] at hl; obtain ⟨m, _, rfl⟩ := hl; exact nl_not_mem_hexB m)
+    (by simp [List.map_map, Function.comp_def, decodeLine, strip_hexB, unhexB_hexB_append]) hr ht
+  rw [joinLines_map_hexB] at this
+  simpa using this
+
+/-- what ends the loop besides end-of-stream: a complete line that is not hex text, or a request on which the handler
+    raises.  The replies to the earlier requests have been written; nothing is written for the offending line; whatever
+    follows it (`rest`) stays unread - the connection is left open but is no longer served -/
+theorem server_loop_ends {σ : Type} (h : σ → Bytes → σ × HRes) (st : σ) (ls ms : List Bytes) (l rest : Bytes) (eof : Bool)
+    (hl : ∀ l ∈ ls, NL ∉ l) (hd : ls.map decodeLine = ms.map ReadRes.msg)
+    (hr : ∀ r ∈ (answersX h st ms).2, r ≠ .raised) (hnl : NL ∉ l) :
+    (decodeLine l = .bad →
+      srvLoop h st (joinLines ls ++ (l ++ NL :: rest)) eof =
+        ((answersX h st ms).1, ((repliesOf (answersX h st ms).2).map enc).flatten, .undecodable, rest)) ∧
+    (∀ m, decodeLine l = .msg m → (h (answersX h st ms).1 m).2 = .raised →
+      srvLoop h st (joinLines ls ++ (l ++ NL :: rest)) eof =
+        ((h (answersX h st ms).1 m).1, ((repliesOf (answersX h st ms).2).map enc).flatten, .handlerRaised, rest)) := by
+  constructor
+  · intro hb
+    rw [srvLoop_lines h st ls ms _ eof hl hd hr, srvLoop_bad h _ l rest eof hnl hb, flatten_replyBytes]
+    simp
+  · intro m hm hraise
+    rw [srvLoop_lines h st ls ms _ eof hl hd hr, srvLoop_raise h _ l rest eof m hnl hm hraise, flatten_replyBytes]
+    simp
+
+/-- the empty line (also `\r\n`, or blanks only) decodes to the empty request; `handle_request(b"")` raises, so it ends
+    the loop like any other raising request.  Empty messages are outside the property (lengths 1..4095). -/
+theorem server_empty_line_ends {σ : Type} (h : σ → Bytes → σ × HRes) (st : σ) (l rest : Bytes) (eof : Bool)
+    (hnl : NL ∉ l) (hs : strip l = []) (hraise : (h st []).2 = .raised) :
+    srvLoop h st (l ++ NL :: rest) eof = ((h st []).1, [], .handlerRaised, rest) := by
+  have := (server_loop_ends h st [] [] l rest eof (by simp) (by simp) (by simp [answersX]) hnl).2 []
+    (by simp [decodeLine, hs, unhexB]) (by simpa [answersX] using hraise)
+  simpa [joinLines, answersX, repliesOf] using this
+
+/-- once the loop has ended nothing is ever written again, whatever arrives: the bytes only pile up unread -/
+theorem server_dead_after_end {σ : Type} (h : σ → Bytes → σ × HRes) (s : Srv σ) (hs : s.fin ≠ .waiting) (chunks : List Bytes) :
+    (chunks.foldl (srvFeed h) s).out = s.out ∧ (chunks.foldl (srvFeed h) s).fin = s.fin ∧
+    (chunks.foldl (srvFeed h) s).st = s.st ∧ (chunks.foldl (srvFeed h) s).buf = s.buf ++ chunks.flatten := by
+  rw [srvFeed_dead h s hs chunks]; simp
+
+/-- the server side is independent of the segmentation of the request stream: feeding the chunks one by one leaves
+    the connection in exactly the state of the loop run on their concatenation -/
+theorem server_any_segmentation {σ : Type} (h : σ → Bytes → σ × HRes) (st : σ) (chunks : List Bytes) :
+    chunks.foldl (srvFeed h) { st := st } = ({ st := st } : Srv σ).after (srvLoop h st chunks.flatten false) := by
+  have := srvFeed_chunks h { st := st } rfl (by simp) chunks
+  simpa using this
+
+/-! ### both directions composed -/
+
+/-- **client_server_exchange.**  A client writes the requests `ms`; the request bytes reach the server loop in ANY
+    segmentation, the reply bytes reach the client in ANY segmentation; then `n` reads return exactly the server's
+    replies to those requests - one per read, in request order, nothing for unanswered requests - followed by
+    timeouts only -/
+theorem client_server_exchange {σ : Type} (h : σ → Bytes → σ × HRes) (st : σ) (ms : List Bytes)
+    (seg1 seg2 : Bytes → List Bytes) (n : Nat)
+    (h1 : ∀ b, (seg1 b).flatten = b) (h2 : ∀ b, (seg2 b).flatten = b)
+    (hr : ∀ r ∈ (answersX h st ms).2, r ≠ .raised) :
+    exchange h st ms seg1 seg2 n =
+      ((repliesOf (answersX h st ms).2).take n).map (fun r => Obs.res (.msg r)) ++
+        List.replicate (n - (repliesOf (answersX h st ms).2).length) (.res .pending) := by
+  unfold exchange
+  simp only [crun_writes, List.nil_append]
+  rw [server_any_segmentation, h1]
+  have hs := server_replies_to_client_writes h st ms [] hr (by simp)
+  simp only [List.append_nil] at hs
+  simp only [Srv.after, hs, List.nil_append]
+  rw [crun_append, crun_feeds _ rfl]
+  simp only [h2, List.nil_append, List.length_replicate, List.drop_left']
+  exact crun_reads _ rfl _ rfl n
+
+/-- ... and with the client scheduled in any way (reads before, between and after the pieces of the reply stream,
+    timeouts anywhere, further writes): what its reads hand out is a prefix of the server's replies, intact, in order -/
+theorem client_server_exchange_any_schedule {σ : Type} (h : σ → Bytes → σ × HRes) (st : σ) (ms : List Bytes)
+    (chunks : List Bytes) (hch : chunks.flatten = (crun {} (ms.map .write)).1.out)
+    (hr : ∀ r ∈ (answersX h st ms).2, r ≠ .raised)
+    (ops : List Op) (hfed : fedBytes false ops = (chunks.foldl (srvFeed h) { st := st }).out) :
+    lineResults (crun (crun {} (ms.map .write)).1 ops).2 =
+      ((repliesOf (answersX h st ms).2).take (lineResults (crun (crun {} (ms.map .write)).1 ops).2).length).map ReadRes.msg := by
+  rw [server_any_segmentation, hch] at hfed
+  simp only [crun_writes, List.nil_append] at hfed ⊢
+  have hs := server_replies_to_client_writes h st ms [] hr (by simp)
+  simp only [List.append_nil] at hs
+  simp only [Srv.after, hs, List.nil_append] at hfed
+  exact client_delivers_messages_from _ rfl ops _ [] (by simp) (by simpa using hfed)
+
+/-- non-vacuity: a handler that answers, stays silent and raises -/
+def exampleHandler (n : Nat) (m : Bytes) : Nat × HRes :=
+  (n + 1, if m = [] then .raised else if m = [0x10] then .silent else .reply (m ++ [UInt8.ofNat n]))
+
+example : exchange exampleHandler 0 [[0x3e], [0x10], [0x27]] (cutBy [1, 2]) (cutBy [3]) 3 =
+    [.res (.msg [0x3e, 0x00]), .res (.msg [0x27, 0x02]), .res .pending] := by
+  rw [client_server_exchange exampleHandler 0 _ _ _ 3 (cutBy_flatten _) (cutBy_flatten _) (by decide)]
+  decide
+
+/-- an upper-case CRLF request is answered, the empty line that follows ends the loop, the request after it is never
+    served -/
+example : srvLoop exampleHandler 0 (joinLines [[0x33, 0x45, 0x0D]] ++ ([] ++ NL :: [0x33, 0x65, 0x0A])) false =
+    (2, [0x33, 0x65, 0x30, 0x30, 0x0A], .handlerRaised, [0x33, 0x65, 0x0A]) :=
+  (server_loop_ends exampleHandler 0 [[0x33, 0x45, 0x0D]] [[0x3e]] [] [0x33, 0x65, 0x0A] false
+    (by decide) (by decide) (by decide) (by decide)).2 [] (by decide) (by decide)
 
 end Gallia.C19
